@@ -149,7 +149,7 @@ impl Prop for AddSub {
         Ok(Case { a, off, op })
     }
     fn check(c: &Case, cx: &mut Cx) -> Verdict {
-        if !c.a.valid() || c.off.abs() > 86_399 {
+        if !c.a.valid() || c.off.unsigned_abs() > 86_399 {
             return Verdict::Skip("malformed case");
         }
         let late = c.off != 0 && (c.a.day < cal::MIN_DAY + 1 || c.a.day > cal::MAX_DAY - 1);
